@@ -109,3 +109,26 @@ CHECKS["C05"] = dict(
     assumptions=[],
 )
 ENGINES.append(dict(name="E-REWRITE", path="harness/rewrite.cpp", serves_properties=["C05", "C08", "C03"], kind_free_text="seed-file based exhaustive enumeration of prefixes, re-encodings and mutations against the real reader"))
+
+CHECKS["C03"] = dict(
+    level="exploration", engine="E-REWRITE",
+    technique="bounded exhaustive input enumeration on the implementation under ASan/UBSan: structure-aware single mutations of exporter-produced files, nesting bombs, all short raw byte strings, through every read-side entry point in crash-contained workers",
+    level_text="Every input of the enumerated families is fed to every CdnsDecoder operation (as first call, followed by skip_item), to CdnsReader, all blocks, all read_generic_* accessors and every string() renderer, in forked workers built with AddressSanitizer+UndefinedBehaviourSanitizer and a per-case watchdog. Families: every truncation; every single-byte substitution (255 values per position); for every CBOR head: argument replaced by 13 boundary values in every head width, major type replaced by each other type, additional info 28..31; nesting bombs (arrays, maps, indefinite arrays, tags; depth 10..2*10^5) raw and as value of an unknown key in every map; all byte strings of length <= 2 and length 3 over a 64-symbol alphabet; k*65535-byte files ending inside a string.",
+    level_note="Trusted: sanitizer runtimes as oracle (memory errors, UB, allocations > 512 MiB, stack overflow), watchdog 20 s per case. Two or more coordinated mutations and reads of uninitialised bytes inside live std::string storage are outside what this check observes. Command-line tools are covered by the tools stage on the distinct outcome classes.",
+    stages=[dict(harness="rewrite", variant="asan", args=["--mode", "mutate"])],
+    rule="enumerated single mutations per seed node/byte; an input is non-trivial when the reader got past the file header (it exercises block/record decoding); distinct by construction (each mutation generated once)",
+    bound_quick="seeds small (594 B: all bytes x 255) and rich (every 3rd byte x 255); bombs up to depth 2*10^5", bound_thorough="adds seed mid; bombs up to 10^6; raw length-4 strings",
+    assumptions=["default 8 MiB stack"],
+)
+
+CHECKS["C08"] = dict(
+    level="exploration", engine="E-REWRITE",
+    technique="bounded exhaustive input enumeration on the implementation: every single semantics-preserving re-encoding at every node of exporter-produced files, each first validated as equivalent by the independent reader",
+    level_text="Four exporter-produced seed files containing every map and array kind of the format are parsed into encoding-preserving trees; every single rewrite at every node (definite<->indefinite per container, chunking of each string into 1/2/3/len chunks, each wider head, map reversal / rotation / every adjacent swap, insertion of an unknown positive or negative key with one of 19 values at front/middle/end of each map) and 24 whole-file rewrites are generated; the independent reader must confirm the rewritten file denotes the same data (guards the generator), then the canonical dump through CdnsReader must equal the original's.",
+    level_note="Trusted: ref/ reader as equivalence guard. Compositions of two or more local rewrites are covered only by the whole-file variants (everything indefinite / widest / chunked / reversed / unknown member in every map / all at once).",
+    stages=[dict(harness="rewrite", variant="asan", args=["--mode", "rewrite"])],
+    rule="(seed, node, rewrite) triples enumerated exhaustively; every case compares two real reader runs; distinct by construction",
+    bound_quick="single rewrites on seeds rich, small, alt (unknown-member values rotated: 3 per position); whole-file variants on all 4 seeds",
+    bound_thorough="single rewrites on all 4 seeds with all 19 unknown-member values per position and all permutations of maps with <= 4 members",
+    assumptions=[],
+)
